@@ -315,9 +315,11 @@ def finish(ctx, level_extra=None):
     cov.update(level_extra or {})
     ev = {"property_id": prop, "tier": ctx.tier, "seed": ctx.seed, "level": "proof", "coverage": cov,
           "assumptions": ctx.assumptions, "wall_s": round(time.time() - ctx.t0, 2), "violations": len(real) + (1 if (not real and ctx.broken) else 0)}
-    os.makedirs(os.path.join(VERIF, "evidence"), exist_ok=True)
-    tmp = os.path.join(VERIF, "evidence", prop + ".json.tmp")
+    # runs against a scratch copy (VERIF_REPO set: seeded-change validation) never overwrite the real evidence
+    evdir = os.path.join(VERIF, "evidence") if REPO == "/repo" else os.path.join(BUILD, "alt-evidence")
+    os.makedirs(evdir, exist_ok=True)
+    tmp = os.path.join(evdir, prop + ".json.tmp")
     json.dump(ev, open(tmp, "w"), indent=1, default=str)
-    os.replace(tmp, os.path.join(VERIF, "evidence", prop + ".json"))
+    os.replace(tmp, os.path.join(evdir, prop + ".json"))
     ctx.note("done rc=%d evaluations=%d distinct=%d obligations=%d/%d" % (rc, cov["evaluations"], cov["distinct_nontrivial"], dis, ob))
     return rc
